@@ -107,7 +107,7 @@ theorem phisSized_mem {f : Func} {dm pred : Nat} : ∀ {phis : List Instr}, Side
 theorem jumpTo_inv (F : Facts P H) {fr0 : Frame} {mark : Nat} {i : Instr} {rest : List Instr} {bl : Block} {pre : List Instr}
     (inv : FrameInv P H h fr0 mark none) (ex : Exec P H h fr0 mark i rest bl pre) (hr : fr0.rest = i :: rest)
     (hnv : Side.definesValue i.op = false)
-    {t : Nat} (hj : Side.jumpOk P fr0.f (Side.defSets fr0.f) fr0.blk pre.length t = true)
+    {t : Nat} (hj : Side.jumpOk P fr0.f (Side.defSets fr0.f) (blockOffsets fr0.f.blocks 0) fr0.blk pre.length t = true)
     {fr' : Frame} (hjt : jumpTo P (popI fr0 rest) t = some fr') :
     FrameInv P H h fr' mark none ∧ fr'.fi = fr0.fi ∧ fr'.f = fr0.f ∧ fr'.params = fr0.params ∧ fr'.dest = fr0.dest := by
   unfold jumpTo at hjt
@@ -129,10 +129,10 @@ theorem jumpTo_inv (F : Facts P H) {fr0 : Frame} {mark : Nat} {i : Instr} {rest 
       simp only [Side.jumpOk, hb', Bool.and_eq_true, beq_iff_eq] at hj
       obtain ⟨hsub, hps⟩ := hj
       -- registers defined at the jump (the terminator itself counts: it defines no value)
-      have hdm : DefdRegs P (popI fr0 rest) (Side.defMask (Side.defSets fr0.f) fr0.f fr0.blk (pre.length + 1)) := by
+      have hdm : DefdRegs P (popI fr0 rest) (Side.defMask (Side.defSets fr0.f) (blockOffsets fr0.f.blocks 0) fr0.blk (pre.length + 1)) := by
         intro id hbit j hjj hdv
         have hi' : bl.instrs = (pre ++ [i]) ++ rest := by rw [ex.hi]; simp
-        have := (testBit_defMask (pre := pre ++ [i]) ex.hb hi' id).1 (by simpa using hbit)
+        have := (testBit_defMask (pre := pre ++ [i]) (ids_of_block F inv.hf inv.hh ex.hb hi') id).1 (by simpa using hbit)
         obtain ⟨_, pre0, hb0, hi0, hdef⟩ := (frameInv_noReg inv ex.ic.self hr hnv).pos
         have hbl : _ = bl := Option.some.inj (hb0.symm.trans ex.hb)
         subst hbl
@@ -175,9 +175,9 @@ theorem jumpTo_inv (F : Facts P H) {fr0 : Frame} {mark : Nat} {i : Instr} {rest 
           rw [hid] at hj'
           rw [hjj] at hj'; cases hj'
           exact ⟨e.2, hval, hsz⟩
-        · have hold : (Side.defMask (Side.defSets fr0.f) fr0.f fr0.blk (pre.length + 1)).testBit id = true := by
+        · have hold : (Side.defMask (Side.defSets fr0.f) (blockOffsets fr0.f.blocks 0) fr0.blk (pre.length + 1)).testBit id = true := by
             rcases hds with hd | ⟨k, hk, hkid⟩
-            · have : ((Side.defSets fr0.f).getD t 0 &&& Side.defMask (Side.defSets fr0.f) fr0.f fr0.blk (pre.length + 1)).testBit id = true := by
+            · have : ((Side.defSets fr0.f).getD t 0 &&& Side.defMask (Side.defSets fr0.f) (blockOffsets fr0.f.blocks 0) fr0.blk (pre.length + 1)).testBit id = true := by
                 rw [hsub]; exact hd
               simp only [Nat.testBit_and, Bool.and_eq_true] at this
               exact this.2
